@@ -17,7 +17,7 @@ Tier == IF "TIER" \in DOMAIN IOEnv THEN IOEnv.TIER ELSE "quick"
 Quick == Tier = "quick"
 \* optional overrides (benchmarks, mutant hunting): C19_CLS / C19_FULL = maximal sequence lengths
 EnvInt(name, dflt) == IF name \in DOMAIN IOEnv THEN DigitsVal(U(IOEnv[name])) ELSE dflt
-\* C19_ONLY = one family root (tokc tokf vgrp sgrp mgrp ngrp hgrp): partial runs for benchmarks (the check refuses to give a verdict)
+\* C19_ONLY = one family root (tokc tokf vgrp sgrp mgrp ngrp hgrp ugrp): partial runs for benchmarks (the check refuses to give a verdict)
 Only == IF "C19_ONLY" \in DOMAIN IOEnv THEN IOEnv.C19_ONLY ELSE ""
 Want(f) == Only = "" \/ Only = f
 
@@ -235,6 +235,41 @@ StrTokTexts(cs) ==
   IF Len(cs) > StrTokLen THEN {}
   ELSE UNION {LET tok == StrTok(StrUnits(cs, 0), ms) IN {tok, <<123>> \o tok \o <<58>> \o tok \o <<125>>} : ms \in SpellVecs(cs)}
 
+\* ---------------- strings by concrete UNIT at every position (su: stringify operands, sx: string tokens) --------------
+\* sv / st choose ONE concrete unit per class and shape (rotation): a unit CLASS occurs at every position, a concrete unit only
+\* alone.  Host string machinery decides per concrete character and per position (a pattern anchor that also matches before
+\* a FINAL line feed, blanks and line boundaries of the host - FS RS NEL NBSP PS U+3000 -, letters / digits beyond ASCII,
+\* identifier characters that take a shortcut).  This family has EVERY ordered pair of concrete units of an enlarged table
+\* (each unit first and last, before and after every other unit) and every unit at the end / start / inside / doubled at the
+\* end of an identifier-like word; as stringify operands (root; name and value of a property) and as string tokens of a text.
+SuExtraUnits == {65, 122, 48, 57, 95, 36, 28, 30, 133, 160, 8233, 12288, 1632, 960}    \* A z 0 9 _ $ FS RS NEL NBSP PS U+3000 U+0660 pi
+SuUnits == StrUnitsAll \cup SuExtraUnits
+SuWords == IF Quick THEN {U("x_1$")} ELSE {U("x_1$"), U("id"), U("0")}
+SuFrames(x) == UNION {{w \o <<x>>, <<x>> \o w, w \o <<x>> \o w, w \o <<x, x>>} : w \in SuWords}
+SuStrings(x) == {<<x, y>> : y \in SuUnits} \cup SuFrames(x)
+SuPlacements(u) ==
+  {VStr(u), VObj(<<[n |-> u, v |-> VStr(u)]>>)}
+    \cup (IF Quick THEN {} ELSE {VArr(<<VObj(<<[n |-> u, v |-> VInt(1)]>>)>>), VArr(<<VStr(u), VStr(u)>>),
+                                 VObj(<<[n |-> KA, v |-> VInt(1)], [n |-> u, v |-> Null]>>)})
+SuValCases(x) == UNION {SuPlacements(u) : u \in SuStrings(x)}
+\* the token of a string: every unit raw where JSON allows it, otherwise its short escape / \u00xx (an accepted text);
+\* thorough: additionally all raw (near misses when a unit is a control, quote or backslash) and all \uXXXX
+SuLegalRaw(c) == c >= 32 /\ c \notin {34, 92}
+SuSpell(c) == IF SuLegalRaw(c) THEN <<c>> ELSE IF ShortEsc(c) # <<c>> THEN ShortEsc(c) ELSE Spell(c, 1)
+SuTok(u) == <<34>> \o JFlatLong([j \in 1..Len(u) |-> SuSpell(u[j])]) \o <<34>>
+SuTokTexts(x) ==
+  UNION {LET tok == SuTok(u) IN
+         {<<123>> \o tok \o <<58>> \o tok \o <<125>>}
+           \cup (IF Quick THEN {} ELSE {tok, QS(u), StrTok(u, [j \in 1..Len(u) |-> 2]), <<123>> \o QS(u) \o U(":1}")})
+         : u \in SuStrings(x)}
+\* the quick sub-grid holds every pair and every unit in every frame position, as a root, a property name and a token
+SuGridLaw == \A x \in SuUnits :
+               /\ \A y \in SuUnits : /\ VStr(<<x, y>>) \in SuValCases(x)
+                                     /\ \E c \in SuValCases(x) : c.k = "obj" /\ c.p[1].n = <<x, y>>
+               /\ \A w \in SuWords : /\ \E c \in SuValCases(x) : c.k = "obj" /\ c.p[1].n = w \o <<x>>
+                                     /\ \E c \in SuValCases(x) : c.k = "obj" /\ c.p[1].n = <<x>> \o w
+               /\ SuTokTexts(x) # {}
+
 \* ---------------- numbers by shape: number TOKENS of a text (nt) and the numbers they denote as operands (nv) -----
 \* The token tables above hold five number tokens and the mutant set a dozen more; the decoder decides per token SYNTAX
 \* (integer syntax / fraction / exponent go through different conversions) and per MAGNITUDE (how many digits, which side
@@ -426,6 +461,7 @@ EnumNext ==
            \/ (Want("mgrp") /\ ph' = "mgrp" /\ \E g \in MutGroups : cur' = g)
            \/ (Want("ngrp") /\ ph' = "ngrp" /\ \E g \in NtGroups : cur' = g)
            \/ (Want("hgrp") /\ ph' = "hgrp" /\ \E g \in HistGroups : cur' = g)
+           \/ (Want("ugrp") /\ ph' = "ugrp" /\ \E x \in SuUnits : cur' = <<x>>)
      \/ /\ ph = "tokc" /\ Len(cur) < MaxClassLen /\ ph' = ph
         /\ (Len(cur) < ClassFullLen \/ JViablePrefix(ClassText(cur)))
         /\ \E c \in 1..NClasses : cur' = Append(cur, c)
@@ -445,8 +481,11 @@ EnumNext ==
      \/ /\ ph = "hgrp"
         /\ \/ (ph' = "hp" /\ \E c \in HpCases(cur) : cur' = c)
            \/ (ph' = "hs" /\ \E c \in HsCases(cur) : cur' = c)
-IsTextState == ph \in {"tokc", "tokf", "mut", "st", "nt"}
-IsValState == ph \in {"val", "sv", "nv"}
+     \/ /\ ph = "ugrp"
+        /\ \/ (ph' = "su" /\ \E v \in SuValCases(cur[1]) : cur' = v)
+           \/ (ph' = "sx" /\ \E t \in SuTokTexts(cur[1]) : cur' = t)
+IsTextState == ph \in {"tokc", "tokf", "mut", "st", "nt", "sx"}
+IsValState == ph \in {"val", "sv", "nv", "su"}
 TextOf == CASE ph = "tokc" -> ClassText(cur) [] ph = "tokf" -> FullText(cur) [] OTHER -> cur
 EnumEmit == CASE IsTextState -> PrintT(ToJson([kind |-> "parse", fam |-> ph, t |-> TextOf]))
               [] IsValState -> PrintT(ToJson([kind |-> "str", fam |-> ph, v |-> cur]))
@@ -507,7 +546,7 @@ HsLaw(c) ==
   /\ ValueLaw(a)
 LawsHold == CASE IsTextState -> LET txt == TextOf IN TextLaw(txt)
               [] IsValState -> ValueLaw(cur)
-              [] ph = "start" -> NumLaw /\ NtGridLaw /\ HistGridLaw
+              [] ph = "start" -> NumLaw /\ NtGridLaw /\ HistGridLaw /\ SuGridLaw
               [] ph = "hp" -> HpLaw(cur) /\ TextLaw(cur.t) /\ TextLaw(cur.t2)
               [] ph = "hs" -> HsLaw(cur)
               [] OTHER -> TRUE
